@@ -33,7 +33,9 @@ UDNS = ["uuid:dev-1", "uuid:dev-2", "uuid:dev-3", "UUID:Dev-4", "uuid:dev-5", "u
 TYPES = ["upnp:rootdevice", "urn:schemas-upnp-org:device:MediaRenderer:1",
          "urn:schemas-upnp-org:service:AVTransport:1", "uuid:dev-1"]
 GOOD_LOCS = ["http://192.168.1.10:80/desc.xml", "http://192.168.1.11:8080/d.xml", "http://[fe80::1]:80/desc.xml",
-             "https://[2001:db8::5]/d", "http://host.example/desc.xml", "http://10.0.0.7/x"]
+             "https://[2001:db8::5]/d", "http://host.example/desc.xml", "http://10.0.0.7/x",
+             # http(s) locations that urlsplit / ip_address cannot digest (no address family can be told)
+             "http://[192.168.1.5]:80/d.xml", "http://[fe80::1/desc.xml", "http://host.example:99999/x"]
 BAD_LOCS = ["http://127.0.0.1:1234/device.xml", "http://[::1]:1234/device.xml", "http://169.254.12.1:1234/device.xml",
             "http://169.254.200.7/x", "https://169.254.0.9:80/", "https://127.0.0.1/", "http://[::1]/",
             "ftp://192.168.1.10/x", "", "/relative"]
@@ -156,6 +158,10 @@ def run_history(case):
                             raised = type(exc).__name__
                     finally:
                         proto.on_data = orig
+                    # the tracker's bookkeeping is synchronous: what it knows is read off BEFORE the loop runs the callbacks'
+                    # tasks ("a byebye removes the device at once"); a removal or refresh deferred behind a task shows here
+                    immediate = [[u, us(d.valid_to), [[loc, us(vt)] for loc, vt in _location_expiries(d).items()]]
+                                 for u, d in tracker.devices.items()]
                     for _ in range(3):
                         loop.run_until_complete(asyncio.sleep(0))
                     if not captured:
@@ -176,6 +182,8 @@ def run_history(case):
                     note = [u, dst, SRC_CODE.get(src, 99), len(log)]
                 devs = [[u, us(d.valid_to), [[loc, us(vt)] for loc, vt in _location_expiries(d).items()]]
                         for u, d in tracker.devices.items()]
+                if op[0] != "purge" and immediate != devs:
+                    devs = immediate          # the two must agree; when they do not, the synchronous view is the one judged
                 for _, _, locs in devs:
                     for loc, _ in locs:
                         seen_locs.add(loc)
